@@ -52,6 +52,7 @@ func load() {
 // Reset clears per-run state (labels are numbered per run).
 func Reset() {
 	watched = nil
+	overrides = nil
 	seen = map[string]int{}
 	Failures = nil
 	Reached = nil
@@ -127,7 +128,26 @@ func str(v interface{}) string {
 	return ""
 }
 
+// Override fixes the value every later String(label) returns (native confirmation harnesses build concrete
+// inputs for other harness functions with it). Not available to the symbolic engine.
+func Override(label, value string) {
+	mu.Lock()
+	defer mu.Unlock()
+	if overrides == nil {
+		overrides = map[string]string{}
+	}
+	overrides[label] = value
+}
+
+var overrides map[string]string
+
 func String(label string) string {
+	mu.Lock()
+	ov, has := overrides[label]
+	mu.Unlock()
+	if has {
+		return ov
+	}
 	if v, ok := get(label); ok {
 		return str(v)
 	}
